@@ -46,6 +46,10 @@ pub struct Case {
     /// 2 = "versions-1.15.<i>", 3 = "k<i>" and "k<i>.idx" alternating (a key that is another key plus a suffix)
     #[serde(default)]
     pub key_style: u8,
+    /// all values of one length are the SAME bytes, whichever key and put they belong to (several keys caching
+    /// identical content); otherwise every put writes bytes of its own
+    #[serde(default)]
+    pub same_values: bool,
 }
 
 fn key_name(style: u8, i: usize) -> SimKey {
@@ -286,14 +290,14 @@ impl Scenario for Cache {
         "exploration"
     }
     fn rule(&self) -> &'static str {
-        "Seeded histories (3-40 ops) of put/put_with_ttl/get/contains/remove/clear/size/stats/advance(+recreate for disk) on the real MemoryCache (5 eviction policies, max_entries 1..1000, max_memory_bytes None/1..1000, values 0..2x the byte limit, key population > capacity; on disk one run in 150 with one value of 16 MiB -1/+0/+1/+4096 bytes (the large-file read path); keys spelled k<i>, or in one run in three obj.<i> / versions-1.15.<i> / k<i> + k<i>.idx - equal up to their last dot, or one a prefix of the other) and the real DiskCache (with/without sub-directories, with/without background tasks) under the virtual clock. Every read is judged against a map-with-expiry model ('latest value or nothing', nothing only if expired/removed/possibly evicted); bounds after every op; reported size/usage vs. what a probe of every key retrieves at the end; disk: a new instance must serve until the TTL ends and not after. Non-trivial = >= 2 state-changing ops; distinct = hash of (config, ops, observed results)."
+        "Seeded histories (3-40 ops) of put/put_with_ttl/get/contains/remove/clear/size/stats/advance(+recreate for disk) on the real MemoryCache (5 eviction policies, max_entries 1..1000, max_memory_bytes None/1..1000, values 0..2x the byte limit, key population > capacity; on disk one run in 150 with one value of 16 MiB -1/+0/+1/+4096 bytes (the large-file read path); keys spelled k<i>, or in one run in three obj.<i> / versions-1.15.<i> / k<i> + k<i>.idx - equal up to their last dot, or one a prefix of the other; in one run in eight all values of one length are the same bytes whichever key they are put under) and the real DiskCache (with/without sub-directories, with/without background tasks) under the virtual clock. Every read is judged against a map-with-expiry model ('latest value or nothing', nothing only if expired/removed/possibly evicted); bounds after every op; reported size/usage vs. what a probe of every key retrieves at the end; disk: a new instance must serve until the TTL ends and not after. Non-trivial = >= 2 state-changing ops; distinct = hash of (config, ops, observed results)."
     }
     fn assumptions(&self) -> Vec<&'static str> {
         vec![
             "clock jumps never land within 1us of an expiry instant, so the 1ns-per-read tick cannot decide a comparison (reads inside that window are counted as ambiguous and not judged)",
             "eviction is 'possible' whenever the model's upper bound on stored entries/bytes reaches a configured limit at a put (over-approximation: relaxes, never tightens)",
             "contains() is judged one way only: true requires a live entry in the model",
-            "benign key strings (k0..kN): path confinement is C20 and not exercised here",
+            "benign key strings (letters, digits, dots and dashes): path confinement is C20 and not exercised here",
         ]
     }
     fn components(&self) -> Vec<(&'static str, &'static str)> {
@@ -392,7 +396,8 @@ impl Scenario for Cache {
         }
         // the spelling of the keys is drawn last (the rest of the case does not depend on it)
         let key_style = if rng.chance(1, 3) { rng.range(1, 3) as u8 } else { 0 };
-        Case { sut, nkeys, ops, key_style }
+        let same_values = rng.chance(1, 8);
+        Case { sut, nkeys, ops, key_style, same_values }
     }
 
     fn execute(&self, case: &Case, ctx: &mut Ctx) -> Option<Violation> {
@@ -500,7 +505,7 @@ async fn run(case: &Case, ctx: &mut Ctx) -> Option<Violation> {
             Op::Put { k, len } | Op::PutTtl { k, len, .. } => {
                 let k = *k % nkeys;
                 let ttl = if let Op::PutTtl { ttl_ns, .. } = op { *ttl_ns } else { default_ttl };
-                let val = payload(((i as u64 + 1) << 16) | k as u64, *len);
+                let val = if case.same_values { payload(0x5A3E_0000, *len) } else { payload(((i as u64 + 1) << 16) | k as u64, *len) };
                 // could this put trigger an eviction? (memory cache only; upper bound on what is stored)
                 if !is_mem {
                     // a disk cache may enforce max_files at put time as well as in its cleanup task
